@@ -24,6 +24,7 @@ EXPLANATION = (
     ' (R8) no ParseError is built with SourceRange::default(); (R9) format_error counts shown and remaining errors on the same list.'
     ' (R10) panicking element reads of the parser are guarded: the grapheme under the cursor is read only after is_empty() was tested false on that path; a constant-index read X[k] only where guards imply X.len() > k; Option/Vec unwraps the function itself tests elsewhere only where the test holds. Reads with a computed index are listed, not decided.'
     " (R11) column arithmetic of the report renderer agrees with the lexer: the length given to an empty line = the value for a missing line = the lexer's first column."
+    " (R12) the lexer's row counter advances only under a condition that is false exactly at the last grapheme (the sentinel new-line): decided over a finite table of (grapheme count, index) with single-expression ParseString predicates inlined."
 )
 IMPURE = re.compile(r"^std::fs::|^std::env::|^std::net::|^std::process::|^std::time::|^rand::|^getrandom::|^std::thread::|^std::io::stdin|^std::os::|^tokio::|^reqwest::")
 
@@ -188,6 +189,8 @@ def run(F, rep, tier):
     run_r9(F, rep)
     run_r10(F, rep)
     run_r11(F, rep)
+    from rules.c09_rows import run_r12
+    run_r12(F, rep, tier)
 
 
 def run_r3(syn_items, rep):
